@@ -988,7 +988,20 @@ func (x *Exec) instUnit(u *Unit) {
 			ok = true
 		}
 	}
+	if !ok && u.Inst.Behavioural != "" {
+		x.oblige(st, "instance", u.Inst.Name, tTrue, nil, fmt.Sprintf("%s is a value of %s, not of %s: the methods of %s are verified against the models written for %s in this run", u.Inst.Name, got, u.Inst.Type, u.Inst.Behavioural, u.Inst.Type))
+		return
+	}
 	x.oblige(st, "instance", u.Inst.Name, boolT(ok), nil, fmt.Sprintf("%s must be an instance of %s (found %s)", u.Inst.Name, u.Inst.Type, got))
+}
+
+func findImpl(cf *ContractFile, typ string) (*ImplContract, bool) {
+	for _, ic := range cf.Impls {
+		if strings.TrimPrefix(ic.Type, "*") == typ {
+			return ic, true
+		}
+	}
+	return nil, false
 }
 
 // lemmaUnit: a property-level consequence of contracts and spec functions.
@@ -1093,8 +1106,46 @@ func unitsOf(ld *Loader, db *ContractDB, pkg *Pkg, cf *ContractFile, prop string
 		subUnits(pkg, cf, pc, fd, fd.Body, key, prop, &units, &problems)
 	}
 	// implementers
-	for _, ik := range sortedKeys(cf.Impls) {
-		ic := cf.Impls[ik]
+	impls := map[string]*ImplContract{}
+	for k, v := range cf.Impls {
+		impls[k] = v
+	}
+	// a package-level instance that is no longer a value of the type named by its contract
+	// (ord.Int re-declared with a type of its own) is judged by behaviour: the methods of its
+	// actual type are verified against the models written for the expected type
+	for _, in := range cf.Insts {
+		in.Behavioural = ""
+		obj := pkg.Types.Scope().Lookup(in.Name)
+		if obj == nil {
+			continue
+		}
+		n := namedOf(obj.Type())
+		if n == nil || n.Obj().Pkg() != pkg.Types || n.Origin().Obj().Name() == in.Type {
+			continue
+		}
+		if _, isPtr := types.Unalias(obj.Type()).(*types.Pointer); isPtr {
+			continue
+		}
+		for _, ic := range cf.Impls {
+			if ic.Type == in.Type {
+				c2 := *ic
+				c2.Type = n.Origin().Obj().Name()
+				c2.Opts = map[string]string{}
+				for k, v := range ic.Opts {
+					c2.Opts[k] = v
+				}
+				c2.Opts["props"] = strings.Join(in.Props, " ")
+				if _, dup := impls["\x00inst:"+c2.Type]; !dup {
+					if _, declared := findImpl(cf, c2.Type); !declared {
+						impls["\x00inst:"+c2.Type] = &c2
+					}
+				}
+				in.Behavioural = c2.Type
+			}
+		}
+	}
+	for _, ik := range sortedKeys(impls) {
+		ic := impls[ik]
 		tn := strings.TrimPrefix(ic.Type, "*")
 		obj, ok := pkg.Types.Scope().Lookup(tn).(*types.TypeName)
 		if !ok {
